@@ -43,6 +43,8 @@ func main() {
 		runImport(w, *tier, *outDir)
 	case "files":
 		runFiles(w, *tier, *outDir)
+	case "read":
+		runReaders(w, *tier, *outDir)
 	default:
 		fmt.Fprintln(os.Stderr, "unknown mode")
 		os.Exit(2)
@@ -62,6 +64,10 @@ func clonePlan(p *migrate.Plan) *migrate.Plan {
 // with custom delimiters / directives (k selects which ones in the quick tier).
 func variants(w *out.W, tmp string, base string, d dialect, p *migrate.Plan, class, desc string, k int, all bool, sp *spec, label string) {
 	for fi, fm := range formats {
+		// quick tier: the atlas format always, three of the five sqltool formats in rotation
+		if !all && fi > 0 && (k+fi)%5 >= 3 {
+			continue
+		}
 		q := clonePlan(p)
 		q.Name, q.Version = "n", ""
 		if fm.name == "atlas" {
@@ -97,13 +103,18 @@ func variants(w *out.W, tmp string, base string, d dialect, p *migrate.Plan, cla
 func runPlans(w *out.W, tier, outDir string) {
 	w.Rule = "a case is non-trivial when the plan has >= 1 change and the real round trip succeeded; keyed by dialect/format/delimiter/input class"
 	tmp := filepath.Join(outDir, "dirs")
+	if st, err := os.Stat("/dev/shm"); err == nil && st.IsDir() {
+		if d, err := os.MkdirTemp("/dev/shm", "c07-"); err == nil {
+			tmp = d // memory file system: the stage creates one directory per case
+		}
+	}
 	os.MkdirAll(tmp, 0o755)
 	defer os.RemoveAll(tmp)
 	thorough := tier == "thorough"
 	// 1. exhaustive small domain: one hot string in one role
 	n := 0
 	for si, s := range singles() {
-		if !thorough && s.shape != 0 && si%3 != 0 {
+		if !thorough && s.shape != 0 && si%4 != 0 {
 			continue
 		}
 		for ii, indent := range []string{"", "  "} {
